@@ -33,8 +33,9 @@ CONSTANTS SdsWriters, RasWriters, Shapes, Types, RasDims, ScaleSets, MaxObjs, Ma
                   \* everything else is explored to the end; TRUE: anything goes
 FAIL == -1
 NcTypes  == {"i8", "c8", "i16", "i32", "f32", "f64"}      \* what the netCDF-style calls can define
-SizeOf   == [i8 |-> 1, u8 |-> 1, c8 |-> 1, uc8 |-> 1, i16 |-> 2, u16 |-> 2, i32 |-> 4, u32 |-> 4, f32 |-> 4, f64 |-> 8]
-IsFloat(t) == t \in {"f32", "f64"}
+SizeOf   == [i8 |-> 1, u8 |-> 1, c8 |-> 1, uc8 |-> 1, i16 |-> 2, u16 |-> 2, i32 |-> 4, u32 |-> 4, f32 |-> 4, f64 |-> 8,
+             li16 |-> 2, lu32 |-> 4, lf32 |-> 4, lf64 |-> 8]    \* l.. = little-endian flavour of the type
+IsFloat(t) == t \in {"f32", "f64", "lf32", "lf64"}
 
 VARIABLES st, sds, ras, nk, out, hist
 vars == <<st, sds, ras, nk, out, hist>>
